@@ -80,9 +80,15 @@ class HybridRunner(ScenarioRunner):
 
         df = pd.DataFrame(output)
 
-        if len(df.columns) > 0:
-            # keep a row (of zeros) for recorded times at which all requested states were empty
-            df = df.reindex(list(res.keys()))
+        if len(agent_states) > 0:
+            # every recorded time gets a row and every requested series a column, zero where the state was empty
+            # (also when the state never occurs in this scenario or when no agent of the type exists at that time)
+            if len(agent_properties) > 0:
+                expected = [state + "_" + agent_property + "_" + property_type for state in agent_states
+                            for agent_property in agent_properties for property_type in agent_property_types]
+            else:
+                expected = list(agent_states)
+            df = df.reindex(index=list(data.keys()), columns=list(df.columns) + [column for column in expected if column not in df.columns])
 
         return df.fillna(0)
 
